@@ -230,6 +230,8 @@ class CoordinateReference(
             out.append(f"# {self.construct_type}:")
             identity = self.identity()
             if identity:
+                # Keep the comment on one line
+                identity = " ".join(str(identity).splitlines())
                 out[-1] += f" {identity}"
 
         out.append(f"{name} = {namespace}{self.__class__.__name__}()")
